@@ -1,1 +1,137 @@
 // Kani harnesses compiled as `mod verif_kani` inside /repo/src/server/ca/aspa.rs (cfg(kani) only).
+//
+// Kernel: AspaDefinitions::process_updates (+ add_or_replace, get, has, remove).
+use super::*;
+use rpki::repository::resources::{AsBlock, AsBlocks, Asn, Ipv4Blocks, Ipv6Blocks};
+use crate::config::verif_kani::{const_finish, fixed_random_state, noop_write};
+
+fn asn(v: u32) -> Asn { Asn::from_u32(v) }
+
+/// Resources holding exactly the AS range lo..=hi.
+fn held(lo: u32, hi: u32) -> ResourceSet {
+    let blocks: AsBlocks = [AsBlock::from((asn(lo), asn(hi)))].into_iter().collect();
+    ResourceSet::new(blocks, Ipv4Blocks::empty(), Ipv6Blocks::empty())
+}
+
+fn ca() -> CaHandle { CaHandle::new("ca".into()) }
+
+/// One add-or-replace entry with two providers against a configuration with
+/// zero or one existing definition (possibly for the same customer) and held
+/// resources lo..=hi: the update is refused exactly when the customer is
+/// listed as its own provider, the providers are duplicated, or the customer
+/// AS is not held - whether the definition is new or replaces an existing
+/// one; when accepted the new configuration holds exactly the new definition
+/// for that customer (and still the other existing one), and one event is
+/// emitted; the original configuration is never touched.
+// vk: timeout=900; unwindset=_RINvNvNtCs8xvirJzNMvV_4core3ptr25swap_nonoverlapping_bytes26swap_nonoverlapping_chunksKj8_ECscrgiVT8UQOZ_6object.0:8; bound=0 or 1 existing definition (1 provider), 1 add-or-replace entry with exactly 2 providers, all AS numbers 32-bit symbolic, held = one arbitrary AS range; constant-hash stub
+#[kani::proof]
+#[kani::unwind(5)]
+#[kani::stub(std::hash::RandomState::new, fixed_random_state)]
+#[kani::stub(<std::hash::DefaultHasher as std::hash::Hasher>::finish, const_finish)]
+#[kani::stub(<std::hash::DefaultHasher as std::hash::Hasher>::write, noop_write)]
+fn x05e_aspa_update_refused_iff_invalid() {
+    let (lo, hi): (u32, u32) = (kani::any(), kani::any());
+    kani::assume(lo <= hi);
+    let resources = held(lo, hi);
+    let have: bool = kani::any();
+    let (c0, q0): (u32, u32) = (kani::any(), kani::any());
+    let mut defs = AspaDefinitions::default();
+    if have {
+        defs.add_or_replace(AspaDefinition { customer: asn(c0), providers: vec![asn(q0)] });
+    }
+    let (c, p0, p1): (u32, u32, u32) = (kani::any(), kani::any(), kani::any());
+    let updates = AspaDefinitionUpdates {
+        add_or_replace: vec![AspaDefinition { customer: asn(c), providers: vec![asn(p0), asn(p1)] }],
+        remove: Vec::new(),
+    };
+    let res = defs.process_updates(&ca(), &resources, updates);
+    let must_refuse = p0 == c || p1 == c || p0 == p1 || !(lo <= c && c <= hi);
+    match &res {
+        Err(_) => assert!(must_refuse),
+        Ok((new, events)) => {
+            assert!(!must_refuse);
+            match new.get(asn(c)) {
+                Some(d) => assert!(d.providers.len() == 2 && d.providers[0] == asn(p0) && d.providers[1] == asn(p1)),
+                None => assert!(false),
+            }
+            if have && c0 != c { assert!(new.has(asn(c0))); }
+            assert!(events.len() <= 1);
+            if !have || c0 != c { assert!(events.len() == 1); }
+        }
+    }
+    // the configuration the update was computed from is unchanged
+    assert!(defs.has(asn(c0)) == have);
+    if !(have && c0 == c) { assert!(!defs.has(asn(c)) || (have && c0 == c)); }
+    kani::cover!(res.is_ok() && have && c0 == c);
+    kani::cover!(res.is_ok() && !have);
+    kani::cover!(res.is_err() && have && c0 == c && !(lo <= c && c <= hi));
+    kani::cover!(res.is_err() && p0 == p1);
+    std::mem::forget((res, defs, resources));
+}
+
+/// An entry with an empty provider list and the removal of an unknown
+/// customer are refused; the removal of a known one is accepted and removes
+/// exactly it.
+// vk: timeout=900; unwindset=_RINvNvNtCs8xvirJzNMvV_4core3ptr25swap_nonoverlapping_bytes26swap_nonoverlapping_chunksKj8_ECscrgiVT8UQOZ_6object.0:8; bound=1 existing definition, either 1 removal or 1 entry with no providers; constant-hash stub
+#[kani::proof]
+#[kani::unwind(5)]
+#[kani::stub(std::hash::RandomState::new, fixed_random_state)]
+#[kani::stub(<std::hash::DefaultHasher as std::hash::Hasher>::finish, const_finish)]
+#[kani::stub(<std::hash::DefaultHasher as std::hash::Hasher>::write, noop_write)]
+fn x05e_aspa_remove_and_empty() {
+    let resources = held(0, u32::MAX);
+    let (c0, q0, r): (u32, u32, u32) = (kani::any(), kani::any(), kani::any());
+    let mut defs = AspaDefinitions::default();
+    defs.add_or_replace(AspaDefinition { customer: asn(c0), providers: vec![asn(q0)] });
+    let removal: bool = kani::any();
+    let updates = if removal {
+        AspaDefinitionUpdates { add_or_replace: Vec::new(), remove: vec![asn(r)] }
+    } else {
+        AspaDefinitionUpdates {
+            add_or_replace: vec![AspaDefinition { customer: asn(r), providers: Vec::new() }],
+            remove: Vec::new(),
+        }
+    };
+    let res = defs.process_updates(&ca(), &resources, updates);
+    match &res {
+        Err(_) => assert!(!removal || r != c0),
+        Ok((new, events)) => {
+            assert!(removal && r == c0);
+            assert!(!new.has(asn(c0)));
+            assert!(events.len() == 1);
+        }
+    }
+    assert!(defs.has(asn(c0)));
+    kani::cover!(res.is_ok());
+    kani::cover!(res.is_err() && removal);
+    kani::cover!(res.is_err() && !removal);
+    std::mem::forget((res, defs, resources));
+}
+
+/// Reduced probe: empty configuration, one entry.
+#[kani::proof]
+#[kani::unwind(5)]
+#[kani::stub(std::hash::RandomState::new, fixed_random_state)]
+#[kani::stub(<std::hash::DefaultHasher as std::hash::Hasher>::finish, const_finish)]
+#[kani::stub(<std::hash::DefaultHasher as std::hash::Hasher>::write, noop_write)]
+fn x05e_probe_empty_config() {
+    let (lo, hi): (u32, u32) = (kani::any(), kani::any());
+    kani::assume(lo <= hi);
+    let resources = held(lo, hi);
+    let defs = AspaDefinitions::default();
+    let (c, p0, p1): (u32, u32, u32) = (kani::any(), kani::any(), kani::any());
+    let updates = AspaDefinitionUpdates {
+        add_or_replace: vec![AspaDefinition { customer: asn(c), providers: vec![asn(p0), asn(p1)] }],
+        remove: Vec::new(),
+    };
+    let res = defs.process_updates(&ca(), &resources, updates);
+    let must_refuse = p0 == c || p1 == c || p0 == p1 || !(lo <= c && c <= hi);
+    assert!(res.is_err() == must_refuse);
+    kani::cover!(res.is_ok());
+    kani::cover!(res.is_err());
+    std::mem::forget((res, defs, resources));
+}
+
+#[cfg(test)]
+#[path = "/verif/.cache/playback/server_ca_aspa.rs"]
+mod playback;
